@@ -14,10 +14,7 @@ Which control forms mako admits (lexer ternary table + `PythonFragment` keyword 
 `if / elif* / else?`, `for / else?`, `while` (no `else`), `try / except+` (no `else`, **no `finally`**: the lexer
 accepts `% finally:` as a ternary of `try` but `PythonFragment` rejects the keyword), `with`.
 
-One statement of the design is false of the code as it stands and appears as `_partial` + `_counterexample`
-(`printer_adequate` was another until /repo 1cb10d7 put `except` into `_re_compound`, `auto_pass_sufficient`
-until 6d51f05 made the visitor write `pass` whenever the printer's `suite_is_empty` flag is still set at a
-ternary / end line, `fragment_headerOk` until e8c0e60 gave `_re_indent` the whitespace class of `PythonFragment`):
+OPEN: one statement of the design is false of the code as it stands and appears as `_partial` + `_counterexample`:
 `stop_rendering_keeps_output` (`return` inside a buffered or filtered def loses the content).  The split of a
 mangled `% for` header by `_FOR_LOOP` is a parameter of the model (`Hdr.forParts`); since /repo 675f827 the trailing
 comment is cut off before the match, so the parameter is the target / iterable of the statement itself.
